@@ -20,12 +20,15 @@ const (
 )
 
 // c12GptTable: one partition with arbitrary valid start/end inside the usable area.
-func c12GptTable(diskSize int64, lss int, pmbr bool) *gpt.Table {
+func c12GptTable(diskSize int64, lss int, pmbr, sym bool) *gpt.Table {
 	sectors := uint64(diskSize) / uint64(lss)
 	arraySectors := uint64(128*128) / uint64(lss)
 	firstUsable := 2 + arraySectors
 	lastUsable := sectors - 2 - arraySectors
-	s, e := vp.U64("gpt.start"), vp.U64("gpt.end")
+	s, e := firstUsable+3, lastUsable-5
+	if sym {
+		s, e = vp.U64("gpt.start"), vp.U64("gpt.end")
+	}
 	vp.Assume(s >= firstUsable)
 	vp.Assume(e >= s)
 	vp.Assume(e <= lastUsable)
@@ -41,12 +44,13 @@ func c12MbrTable() *mbr.Table {
 
 // c12GptProbe: the disk previously held arbitrary bytes in sector 0 (e.g. an old MBR, boot code);
 // a GPT is written; the freshly opened disk is reported as GPT with the partition written.
-func c12GptProbe(diskSize int64, lss int, pmbr bool) {
-	t := c12GptTable(diskSize, lss, pmbr)
+func c12GptProbe(diskSize int64, lss int, pmbr, sym bool) {
+	t := c12GptTable(diskSize, lss, pmbr, sym)
 	dev := vpdev.NewMemDev("disk", diskSize)
 	dev.Image = vp.Bytes("oldsector0", 512) // stale sector 0 (an earlier MBR, boot code, ...)
 	err := t.Write(dev, diskSize)
 	vp.Assert(err == nil, "gpt Write accepts the table")
+	vp.Cover("gpt table written")
 	n := len(dev.Log)
 	vp.Unwind(40)
 	got, err := Read(dev, lss, lss)
@@ -61,20 +65,39 @@ func c12GptProbe(diskSize int64, lss int, pmbr bool) {
 	if pmbr {
 		vp.Assert(g.ProtectiveMBR, "the protective MBR that was written is seen")
 	}
+	// "in any partition" presupposes that the session that wrote the table (where CreateFilesystem
+	// puts the filesystem) and the freshly opened disk (where GetFilesystem looks for it) agree on
+	// the partition's byte range: first LBA x logical sector size, (last-first+1) sectors long
+	// (UEFI 2.x 5.3.3)
+	s, e := t.Partitions[0].Start, t.Partitions[0].End
+	wantStart := int64(s) * int64(lss)
+	wantSize := int64(e-s+1) * int64(lss)
+	vp.Assert(g.Partitions[0].GetStart() == wantStart, "fresh disk: the partition starts at first LBA x logical sector size")
+	vp.Assert(g.Partitions[0].GetSize() == wantSize, "fresh disk: the partition is (last-first+1) x logical sector size long")
+	vp.Assert(t.Partitions[0].GetSize() == wantSize, "writing session: the partition is (last-first+1) x logical sector size long")
 	vp.Cover("gpt disk probed")
+	vp.AssertUnless("KF-C12-4", lss != 512, t.Partitions[0].GetStart() == wantStart, "writing session: the partition starts at first LBA x logical sector size")
 }
 
-func VP_C12_table_probe_gpt_512_pmbr()   { c12GptProbe(1<<20, 512, true) }
-func VP_C12_table_probe_gpt_512_nopmbr() { c12GptProbe(1<<20, 512, false) }
-func VP_C12_table_probe_gpt_4096_pmbr()  { c12GptProbe(1<<20, 4096, true) }
+// symbolic geometry goes through the (uninterpreted) CRC of the entry array; the variants with
+// concrete geometry are evaluated exactly, so that a reader looking at the wrong place is refuted
+func VP_C12_table_probe_gpt_512_pmbr()   { c12GptProbe(1<<20, 512, true, true) }
+func VP_C12_table_probe_gpt_512_nopmbr() { c12GptProbe(1<<20, 512, false, false) }
+func VP_C12_table_probe_gpt_4096_pmbr()  { c12GptProbe(1<<20, 4096, true, false) }
 func VP_C12_table_probe_gpt_4096_nopmbr() {
 	if vp.Thorough() {
-		c12GptProbe(1<<20, 4096, false)
+		c12GptProbe(1<<20, 4096, false, true)
 	} else {
 		vp.Cover("thorough tier only")
 	}
 }
-func VP_C12_table_probe_gpt_min_512() { c12GptProbe(70*512, 512, true) }
+func VP_C12_table_probe_gpt_min_512() {
+	if vp.Thorough() {
+		c12GptProbe(70*512, 512, true, true)
+	} else {
+		vp.Cover("thorough tier only")
+	}
+}
 
 // c12MbrProbe: an MBR written on a blank disk is reported as MBR.
 func VP_C12_table_probe_mbr_blank() {
@@ -99,7 +122,9 @@ func VP_C12_table_probe_mbr_blank() {
 // touch). The freshly opened disk must be reported as the MBR disk it now is.
 func VP_C12_table_probe_mbr_over_gpt() {
 	const diskSize = 1 << 20
-	old := c12GptTable(diskSize, 512, true)
+	// the earlier GPT (concrete: one partition, protective MBR)
+	old := &gpt.Table{LogicalSectorSize: 512, PhysicalSectorSize: 512, GUID: c12DiskGUID, ProtectiveMBR: true, Partitions: []*gpt.Partition{
+		{Index: 1, Start: 64, End: 1000, Type: gpt.LinuxFilesystem, Name: "data", GUID: c12PartGUID}}}
 	dev := vpdev.NewMemDev("disk", diskSize)
 	err := old.Write(dev, diskSize)
 	vp.Assert(err == nil, "gpt Write accepts the table")
